@@ -530,6 +530,8 @@ func (rngdata *RangeNamespaceData) ReadFrom(reader io.Reader) (int64, error) {
 		return n, fmt.Errorf("failed to read data: %w", err)
 	}
 
+	// the container may be reused for several responses: do not keep proofs of a previous one
+	rngdata.FirstIncompleteRowProof, rngdata.LastIncompleteRowProof = nil, nil
 	rngdata.Shares = make([][]libshare.Share, len(nd))
 	for i, row := range nd {
 		rngdata.Shares[i] = row.Shares
